@@ -96,8 +96,8 @@ impl Check for C19 {
         // enumeration: 42 descriptors x 3 spellings, each tested against all 258 names in one session
         let nd = (ENUM_TOKENS.len() + ENUM_TOKENS.len() * ENUM_TOKENS.len()) as u64 * 3;
         match tier {
-            Tier::Quick => vec![Phase::random("random-lists", 1_500, 512).batch(50).watchdog(30_000), Phase::indexed("all-short-descriptors-x-all-short-names", nd, true).batch(6).watchdog(60_000)],
-            Tier::Thorough => vec![Phase::random("random-lists", 30_000, 512).batch(100).watchdog(30_000), Phase::indexed("all-short-descriptors-x-all-short-names", nd, true).batch(6).watchdog(60_000)],
+            Tier::Quick => vec![Phase::random("random-lists", 20_000, 512).batch(50).watchdog(30_000), Phase::indexed("all-short-descriptors-x-all-short-names", nd, true).batch(6).watchdog(60_000)],
+            Tier::Thorough => vec![Phase::random("random-lists", 400_000, 512).batch(100).watchdog(30_000), Phase::indexed("all-short-descriptors-x-all-short-names", nd, true).batch(6).watchdog(60_000)],
         }
     }
     fn describe(&self, phase: usize, tape: &[u8]) -> String {
